@@ -323,7 +323,7 @@ def fault_runs(ctx, quick: bool) -> List[Tuple[Dict[str, Any], Any, P.CaseResult
 # commit()'s fallback: the actors start on an UNUSABLE pointer (Model/PtrFallback.v)
 # ---------------------------------------------------------------------------------------------------------------------
 DAMAGES = ["missing", "garbage", "dangling", "empty"]
-RREQ = ["DS.Model.Commit", "DS.Model.PtrFallback"]
+RREQ = ["DS.Gen.GenCommit", "DS.Model.Commit", "DS.Model.PtrFallback"]
 _META_NAME = re.compile(r"^v(\d+)(?:-[0-9a-f]{8})?\.metadata\.json$")
 
 
